@@ -255,7 +255,7 @@ var oddCalls = []string{"top()", "bottom()", "top(value)", "top(value, 2)", "top
 	"f()", "unknown(value, /re/, *)", "max(*)", "max(/re/)", "max(*::tag)", "mean(*::field)", "time()", "time(1s)", "now()", "abs(w)", "elapsed(value, 0s)",
 	"cumulative_sum()", "integral(value, 0s)", "mode(value) + max(n)", "top(value, 1) / 0", "mean(value) % 0", "*", "*::tag", "/re/", "value::tag", "host::float",
 	"(top(value, host, 1))", "-top(value, host, 1)", "(((value)))", "1 / 0", "10s / 0.5", "10s / 0", "1h % 0s", "9223372036854775807 + 1", "-9223372036854775808 / -1", "-9223372036854775808 % -1",
-	"18446744073709551615 + 1", "1.5 % 0", "'a' + 'b'", "true AND 1", "value =~ /a/", "'x' =~ /x/", "1 =~ /1/", "time", "\"time\"", "time AS t", "value AS time"}
+	"18446744073709551615 + 1", "1.5 % 0", "host =~ /a/ + 1", "1 !~ /b/ * c", "host =~ /a/ AND host !~ /b/ - 1", "host =~ /^(a|b)$/ OR host !~ /^c$/", "'a' + 'b'", "true AND 1", "value =~ /a/", "'x' =~ /x/", "1 =~ /1/", "time", "\"time\"", "time AS t", "value AS time"}
 
 var oddDims = []string{"time()", "time(0s)", "time(-1s)", "time(1s)", "time(1s, 1s)", "time(0s, 1s)", "time(1s, 0s)", "time(1s, -1s)", "time(5)", "time(5, 5)", "time('x')", "time(1s, 'x')", "time(1s, now())",
 	"time(1s, now() - 1h)", "time(1s, 2s, 3s)", "time(1s, '2000-01-01T00:00:00Z')", "time(value)", "Time(1s)", "host", "*", "*::tag", "*::field", "/re/", "f()", "f(1s)", "f(value, 1s)", "mean(value)", "host, region",
